@@ -26,6 +26,8 @@ def run(ctx):
     finder.rule_filter_before_entry(ctx, facts, "C10-R1")
     finder.rule_parse_complete(ctx, facts, "C10-R1")
     rule_anchor_provenance(ctx, facts, g, "C10-R2")
+    from .c05 import rule_same_text
+    rule_same_text(ctx, facts, "C10-R2")
     ctx.assume("pest semantics: implicit WHITESPACE/COMMENT skipping between the elements of non-atomic rules, none inside atomic rules")
     return {
         "explanation": "Necessary conditions of canonical recognition decided from the grammar AST (pest_meta) and rustc MIR: whitespace "
